@@ -6,6 +6,7 @@ import RsModel.Lemmas.ProvBytes
 import RsModel.Lemmas.SourcesOnce
 import RsModel.Lemmas.ProvLines
 import RsModel.Lemmas.ColdStrip
+import RsModel.Lemmas.ProvRepl
 /-!
 # C04 — mappings point to where the text really came from
 (leaf level: an OriginalSource maps every token to its own position; the composites are tied by correspondence)
@@ -272,5 +273,40 @@ such a tree as they stand. -/
 theorem c04_cold_caches (s : Src) (o : Opts) (σ : Store) (hn : s.ids.Nodup) (hc : Cold σ s.ids) :
     (getMap s o σ).1 = (getMap s.strip o []).1 ∧ s.src = s.strip.src ∧ s.strip.NoCached :=
   ⟨getMap_strip s o σ hn hc, (Src.strip_src s).symm, Src.strip_nc s⟩
+
+
+/-! ## the bundler's shape: ReplaceSource nodes over OriginalSource trees, anywhere under ConcatSource nodes -/
+
+/-- **C04, chunk stream, for every tree of raw / OriginalSource leaves, ReplaceSource nodes over trees of those, and ConcatSource at
+any nesting** (`Src.ReplWD`: e.g. a ConcatSource of modules each wrapped in a ReplaceSource; one content per file name): every
+mapped chunk names — through the files announced so far in the stream — a file with its content `T` and the true line and column
+of a byte `q` of `T`, and is the piece `T[q..q')` of that very file starting at that very byte, inside one potential token, byte `j`
+of the chunk being at the reported column plus `j` — or it is a line of the content of one of the tree's replacements.
+(`ProvQ`: the invariant is kept by ConcatSource's renumbering whatever the chunks say about their files.) -/
+theorem c04_bundle_stream (cons : Text → Option Text) (hasc : ∀ n T, cons n = some T → IsAscii T ∧ T.length < USIZE_MAX)
+    (s : Src) (h : s.ReplWD cons) (σ : Store) :
+    ProvQ (TrueQ (GenOf s.allRepls)) emptyS (s.stream ⟨true, false⟩ σ).1.evs :=
+  Src.stream_provQ cons hasc s h σ
+
+/-- **… and through `map()`, byte by byte**: for every byte `i` of `source()` that the returned SourceMap resolves to `o`: through the
+map's own tables `o` names the file the byte was copied from, with its exact content `T`, and the true position of a byte `q` of
+`T`; the byte is the original byte `T[q + d]` whose own true position is `o`'s line and `o`'s column plus `d` (own file, own line,
+column not after its own; a byte that begins the potential token has `d = 0`), or it belongs to the content of a replacement. -/
+theorem c04_bundle_map_bytes (cons : Text → Option Text) (s : Src) (h : s.ReplWD cons) (hz : s.ReplSized)
+    (hasc : ∀ n T, cons n = some T → IsAscii T ∧ T.length < USIZE_MAX) (final : Bool)
+    (hsmall : ∀ m ∈ chunkMs (s.stream ⟨true, true⟩ []).1.evs, m.small)
+    (sm : SMap) (hm : (getMap s ⟨true, final⟩ []).1 = some sm) :
+    ∀ (i : Nat) (o : Orig), (attrFrom (decode sm.mappings) startPos s.src)[i]? = some (some o) →
+      ∃ (name T : Text) (q d : Nat), sm.sources[o.src]? = some name ∧ sm.sourcesContent[o.src]? = some T ∧ q < T.length
+        ∧ adv startPos (T.take q) = ⟨o.line, o.col⟩
+        ∧ ((q + d < T.length ∧ s.src[i]? = T[q + d]? ∧ adv startPos (T.take (q + d)) = ⟨o.line, o.col + d⟩
+              ∧ ∃ tok k0 l0 c0, TokPos T tok l0 c0 k0 ∧ k0 ≤ q ∧ q + d < k0 + tok.length)
+            ∨ (∃ r ∈ s.allRepls, ∃ cl ∈ splitLines r.content, d < cl.length ∧ s.src[i]? = cl[d]?)) :=
+  replTree_map_bytes cons s h hz hasc final hsmall sm hm
+
+/-- non-vacuity: `ConcatSource[ReplaceSource(OriginalSource("a;b", "f")), OriginalSource("c", "g")]` is such a tree -/
+example : (Src.concat (.cons (.replace (.orig [97, 59, 98] [102]) [⟨1, 2, [88], none, 1⟩]) (.cons (.orig [99] [103]) .nil))).ReplWD
+    (fun n => if n = [102] then some [97, 59, 98] else if n = [103] then some [99] else none) := by
+  simp [Src.ReplWD, SrcList.ReplWDs, Src.OrigTree, Src.WD]
 
 end Rs
